@@ -550,14 +550,23 @@ func (x *xChecker) allFields(t *xType) []*xField {
 	return t.Fields
 }
 
+// typeKey: "!type" definitions get the "_" prefix of utils.go getSyslTypeName when their
+// name starts with a native type name; aliases (simple types, simpleContent) keep theirs.
+func (x *xChecker) typeKey(name string) string {
+	if t := x.d.typ(name); t != nil && (t.K == "simple" || t.K == "simplecontent") {
+		return name
+	}
+	return goTypeKey(name)
+}
+
 func (x *xChecker) checkType(t *xType) {
 	x.nTypes++
-	key := goTypeKey(t.Name)
+	key := x.typeKey(t.Name)
 	def := x.af.Types[key]
 	where := "type " + t.Name
 	cls := nameClass(t.Name)
 	if def == nil {
-		x.fail("type-missing", "kind="+t.K+",name="+cls, fmt.Sprintf("%s: no type %q in the compiled output; types: %v", where, key, sortedKeys(x.af.Types)))
+		x.fail("type-missing", "name="+cls+",kind="+t.K, fmt.Sprintf("%s: no type %q in the compiled output; types: %v", where, key, sortedKeys(x.af.Types)))
 		return
 	}
 	switch t.K {
@@ -650,7 +659,7 @@ func (x *xChecker) checkField(where string, t *xType, def *tyDef, f *xField) {
 	switch {
 	case f.ElemRef != "":
 	case f.Named != "":
-		k := goTypeKey(f.Named)
+		k := x.typeKey(f.Named)
 		if len(got.Ref) != 1 || got.Ref[0] != k {
 			x.fail("field-reference", what+",named-"+x.d.typ(f.Named).K+",name="+nameClass(f.Named), fmt.Sprintf("%s.%s: expected reference to %s, compiled %s", where, f.Name, k, got))
 		} else if x.af.Types[k] == nil {
